@@ -2,6 +2,7 @@ package handlers
 
 import (
 	"context"
+	"github.com/mimecast/dtail/internal/vhook"
 	"os"
 	"path/filepath"
 	"strings"
@@ -145,6 +146,7 @@ func (r *readCommand) read(ctx context.Context, ltx lcontext.LContext,
 		return
 	default:
 		dlog.Server.Info("Server limit hit, queueing file", len(limiter), path)
+		vhook.Point("srv.lim.wait", vhook.ID(r.server), r.mode.String(), path)
 		select {
 		case limiter <- struct{}{}:
 			dlog.Server.Info("Server limit OK now, processing file", len(limiter), path)
@@ -153,9 +155,11 @@ func (r *readCommand) read(ctx context.Context, ltx lcontext.LContext,
 		}
 	}
 	// Only give back the slot once we really own one.
+	vhook.Point("srv.lim.acq", vhook.ID(r.server), r.mode.String(), path)
 	defer func() {
 		select {
 		case <-limiter:
+			vhook.Point("srv.lim.rel", vhook.ID(r.server), r.mode.String(), path)
 		default:
 		}
 	}()
@@ -167,6 +171,7 @@ func (r *readCommand) read(ctx context.Context, ltx lcontext.LContext,
 		if aggregate != nil {
 			lines = make(chan *line.Line, 100)
 			aggregate.NextLinesCh <- lines
+			vhook.Point("srv.mapr.reg", vhook.ID(r.server), path)
 		}
 		if err := reader.Start(ctx, ltx, lines, re); err != nil {
 			dlog.Server.Error(r.server.user, path, globID, err)
